@@ -36,12 +36,13 @@ structure Frm (s s' : St) : Prop where
   stack : s'.stack = s.stack
   error : s.error.isSome → s'.error.isSome
   init : ∀ x, s'.init x = .pending → s.init x = .pending
+  fsm : s'.fsmActive = s.fsmActive
 
-theorem Frm.refl (s : St) : Frm s s := ⟨rfl, rfl, id, fun _ h => h⟩
+theorem Frm.refl (s : St) : Frm s s := ⟨rfl, rfl, id, fun _ h => h, rfl⟩
 
 theorem Frm.trans {a b c : St} (h1 : Frm a b) (h2 : Frm b c) : Frm a c :=
   ⟨h2.active.trans h1.active, h2.stack.trans h1.stack, fun h => h2.error (h1.error h),
-   fun x h => h1.init x (h2.init x h)⟩
+   fun x h => h1.init x (h2.init x h), h2.fsm.trans h1.fsm⟩
 
 def DFrm (dlv : Dlv) : Prop := ∀ s d et data, Frm s (dlv s d et data).1
 
@@ -49,7 +50,7 @@ theorem abort_frm (s : St) (e : Exc) : Frm s (s.abort e) := by
   unfold St.abort
   split
   · exact Frm.refl s
-  · exact ⟨rfl, rfl, fun _ => rfl, fun _ h => h⟩
+  · exact ⟨rfl, rfl, fun _ => rfl, fun _ h => h, rfl⟩
 
 theorem abort_trace (s : St) (e : Exc) : (s.abort e).trace = s.trace := by
   unfold St.abort; split <;> rfl
@@ -93,7 +94,7 @@ theorem setOutput_frm {dlv : Dlv} (h : DFrm dlv) (b : Blk) (d : Nat) (s : St) (v
   · simp only []
     split
     · exact sendEdges_frm h ..
-    · have h0 : Frm s { s with out := upd s.out d v } := ⟨rfl, rfl, id, fun _ h => h⟩
+    · have h0 : Frm s { s with out := upd s.out d v } := ⟨rfl, rfl, id, fun _ h => h, rfl⟩
       exact andThen_frm (h0.trans (sendEdges_frm h ..)) (sendEdges_frm h ..)
 
 theorem runAct_frm {dlv : Dlv} (h : DFrm dlv) (b : Blk) (d : Nat) (s : St) (a : Act) :
@@ -133,7 +134,7 @@ theorem handlerBody_frm {dlv : Dlv} (h : DFrm dlv) (b : Blk) (d : Nat) (s : St) 
 
 theorem upd_init_frm (s : St) (d : Nat) (v : InitSt) (hv : v ≠ .pending) :
     Frm s { s with init := upd s.init d v } := by
-  refine ⟨rfl, rfl, id, fun x hx => ?_⟩
+  refine ⟨rfl, rfl, id, fun x hx => ?_, rfl⟩
   by_cases hxd : x = d
   · subst hxd; simp [upd] at hx; exact absurd hx hv
   · simpa [upd, hxd] using hx
@@ -166,25 +167,140 @@ theorem earlyInit_frm {dlv : Dlv} (h : DFrm dlv) (b : Blk) (d : Nat) (stk0 : Lis
   unfold earlyInit
   split
   · have h1 := initBlock_frm h b d { s with active := upd s.active d false, stack := ⟨d, .init⟩ :: stk0 }
-    refine ⟨?_, hs.symm, h1.error, h1.init⟩
+    refine ⟨?_, hs.symm, h1.error, h1.init, h1.fsm⟩
     simp only [h1.active, upd_upd, upd_self]
   · exact Frm.refl s
 
 theorem pop_frm {s s4 p1 : St} (stk0 : List Frame) (t : List TItem) (ha : s4.active = s.active)
-    (he : s4.error = s.error) (hi : s4.init = s.init) (h1 : Frm s4 p1) (hs : s.stack = stk0) :
+    (he : s4.error = s.error) (hi : s4.init = s.init) (hf : s4.fsmActive = s.fsmActive)
+    (h1 : Frm s4 p1) (hs : s.stack = stk0) :
     Frm s { p1 with stack := stk0, trace := t } :=
-  ⟨h1.active.trans ha, hs.symm, fun h => h1.error (he ▸ h), fun x h => hi ▸ h1.init x h⟩
+  ⟨h1.active.trans ha, hs.symm, fun h => h1.error (he ▸ h), fun x h => hi ▸ h1.init x h,
+   h1.fsm.trans hf⟩
+
+/-! the FSM: a transition runs inside the handler frame `⟨d, .handler⟩ :: stk0` -/
+
+theorem winBody_frm {dlv : Dlv} (h : DFrm dlv) (b : Blk) (d : Nat) (s : St) (wb : WinBody) :
+    Frm s (winBody dlv b d s wb).1 := by
+  unfold winBody
+  split
+  · exact runActs_frm h ..
+  · split
+    · exact Frm.refl s
+    · split
+      · exact h ..
+      · split
+        · exact ⟨rfl, rfl, id, fun _ h => h, rfl⟩
+        · exact Frm.refl s
+
+theorem fsmWindow_frm {dlv : Dlv} (h : DFrm dlv) (b : Blk) (d : Nat) (stk0 : List Frame) (s : St)
+    (wb : WinBody) (hs : s.stack = ⟨d, .handler⟩ :: stk0) : Frm s (fsmWindow dlv b d stk0 s wb).1 := by
+  unfold fsmWindow
+  have hb := winBody_frm h b d { s with active := upd s.active d false, stack := ⟨d, .window⟩ :: stk0 } wb
+  refine ⟨?_, hs.symm, hb.error, hb.init, hb.fsm⟩
+  simp only [hb.active, upd_upd, upd_self]
+
+theorem chainExit_frm {dlv : Dlv} (h : DFrm dlv) (b : Blk) (d : Nat) (s : St) (chained : Bool) :
+    Frm s (chainExit dlv b d s chained).1 := by
+  unfold chainExit
+  have h0 : Frm s { s with nextEv := upd s.nextEv d Option.none } := ⟨rfl, rfl, id, fun _ h => h, rfl⟩
+  simp only []
+  split
+  · split
+    · exact h0.trans (runActs_frm h ..)
+    · exact h0
+  · exact h0
+
+theorem fsmChain_frm {dlv : Dlv} (h : DFrm dlv) (b : Blk) (d : Nat) (stk0 : List Frame) (k : Nat) (s : St)
+    (chained : Bool) (ns : Nat) (hs : s.stack = ⟨d, .handler⟩ :: stk0) :
+    Frm s (fsmChain dlv b d stk0 k s chained ns).1 := by
+  induction k generalizing s chained ns with
+  | zero => exact Frm.refl s
+  | succ k ih =>
+    unfold fsmChain
+    have h1 := chainExit_frm h b d s chained
+    refine andThen_frm h1 ?_
+    generalize (chainExit dlv b d s chained).1 = s0 at h1
+    have hs0 : s0.stack = ⟨d, .handler⟩ :: stk0 := h1.stack.trans hs
+    have h2 : Frm s0 { s0 with fstate := upd s0.fstate d (some ns) } := ⟨rfl, rfl, id, fun _ h => h, rfl⟩
+    have h3 := fsmWindow_frm h b d stk0 { s0 with fstate := upd s0.fstate d (some ns) } (.enter ns) hs0
+    refine andThen_frm (h2.trans h3) ?_
+    generalize (fsmWindow dlv b d stk0 { s0 with fstate := upd s0.fstate d (some ns) } (.enter ns)).1 = s2 at h3
+    have hs2 : s2.stack = ⟨d, .handler⟩ :: stk0 := h3.stack.trans hs0
+    split
+    · exact ih s2 true _ hs2
+    · split
+      · exact Frm.refl s2
+      · have h4 := fsmWindow_frm h b d stk0 s2 (.startTimer ns) hs2
+        refine andThen_frm h4 ?_
+        generalize (fsmWindow dlv b d stk0 s2 (.startTimer ns)).1 = s3 at h4
+        split
+        · exact ih s3 true _ (h4.stack.trans hs2)
+        · exact Frm.refl s3
+
+theorem fsmLeave_frm {dlv : Dlv} (h : DFrm dlv) (b : Blk) (d : Nat) (s : St) :
+    Frm s (fsmLeave dlv b d s).1 := by
+  unfold fsmLeave
+  split
+  · exact Frm.refl s
+  · split
+    · exact Frm.refl s
+    · exact andThen_frm (runActs_frm h ..) (andThen_frm (sendEdges_frm h ..) ⟨rfl, rfl, id, fun _ h => h, rfl⟩)
+
+theorem fsmFinish_frm {dlv : Dlv} (h : DFrm dlv) (b : Blk) (d : Nat) (s : St) :
+    Frm s (fsmFinish dlv b d s).1 := by
+  unfold fsmFinish
+  split
+  · exact Frm.refl s
+  · exact andThen_frm (setOutput_frm h ..) (andThen_frm (sendEdges_frm h ..) (Frm.refl _))
+
+theorem fsmTransition_frm {dlv : Dlv} (h : DFrm dlv) (b : Blk) (d : Nat) (stk0 : List Frame) (s : St)
+    (ns : Nat) (hs : s.stack = ⟨d, .handler⟩ :: stk0) : Frm s (fsmTransition dlv b d stk0 s ns).1 := by
+  unfold fsmTransition
+  have h1 := fsmLeave_frm h b d s
+  refine andThen_frm h1 ?_
+  generalize (fsmLeave dlv b d s).1 = s3 at h1
+  split
+  · exact Frm.refl s3
+  · exact andThen_frm (fsmChain_frm h b d stk0 _ s3 false ns (h1.stack.trans hs)) (fsmFinish_frm h ..)
+
+theorem fsmEvent_frm {dlv : Dlv} (h : DFrm dlv) (b : Blk) (d : Nat) (stk0 : List Frame) (s : St)
+    (et : EType) (hs : s.stack = ⟨d, .handler⟩ :: stk0) : Frm s (fsmEvent dlv b d stk0 s et).1 := by
+  unfold fsmEvent
+  split
+  · exact Frm.refl s
+  · exact Frm.refl s
+  · exact Frm.refl s
+  · exact andThen_frm (sendEdges_frm h ..) (Frm.refl _)
+  · split
+    · split
+      · exact Frm.refl s
+      · exact ⟨rfl, rfl, id, fun _ h => h, rfl⟩
+    · rename_i ns _ hfa
+      have h1 := fsmTransition_frm h b d stk0 { s with fsmActive := upd s.fsmActive d true } ns hs
+      refine ⟨h1.active, h1.stack, h1.error, h1.init, ?_⟩
+      simp only [h1.fsm]
+      exact upd_restore _ _ (by simpa using hfa)
+
+theorem inHandler_frm (d : Nat) (stk0 : List Frame) (s : St) (data : Data) (body : St → St × Res)
+    (hs : s.stack = stk0)
+    (hb : ∀ s4 : St, s4.stack = ⟨d, .handler⟩ :: stk0 → Frm s4 (body s4).1) :
+    Frm s (inHandler d stk0 s data body).1 := by
+  unfold inHandler
+  simp only []
+  refine Frm.trans ?_ (classify_frm _ _)
+  refine pop_frm stk0 _ ?_ ?_ ?_ ?_ (hb _ rfl) hs <;> rfl
 
 theorem callHandler_frm {dlv : Dlv} (h : DFrm dlv) (b : Blk) (d : Nat) (stk0 : List Frame) (s : St)
     (et : EType) (data : Data) (hs : s.stack = stk0) : Frm s (callHandler dlv b d stk0 s et data).1 := by
   unfold callHandler
   split
-  · exact Frm.refl s
+  · exact inHandler_frm d stk0 s data _ hs (fun s4 h4 => fsmEvent_frm h b d stk0 s4 et h4)
   · split
     · exact Frm.refl s
-    · simp only []
-      refine Frm.trans ?_ (classify_frm _ _)
-      refine pop_frm stk0 _ ?_ ?_ ?_ (handlerBody_frm h ..) hs <;> rfl
+    · split
+      · exact Frm.refl s
+      · exact inHandler_frm d stk0 s data _ hs (fun s4 _ => handlerBody_frm h ..)
 
 theorem eventBody_frm {dlv : Dlv} (h : DFrm dlv) (b : Blk) (d : Nat) (stk0 : List Frame) (s : St)
     (et : EType) (data : Data) (hs : s.stack = stk0) : Frm s (eventBody dlv b d stk0 s et data).1 := by
@@ -209,18 +325,19 @@ theorem deliver_frm (c : Circ) (fuel : Nat) : DFrm (deliver c fuel) := by
       · exact Frm.refl s
       · split
         · have h := abort_frm s .circuitError
-          exact ⟨h.active, h.stack, h.error, h.init⟩
+          exact ⟨h.active, h.stack, h.error, h.init, h.fsm⟩
         · next b _ _ _ hact =>
           have h1 := eventBody_frm ih b d s.stack { s with active := upd s.active d true } et data rfl
-          refine ⟨?_, h1.stack, h1.error, h1.init⟩
+          refine ⟨?_, h1.stack, h1.error, h1.init, h1.fsm⟩
           simp only [h1.active]
           exact upd_restore _ _ (by simpa using hact)
 
-/-! ### generic traversal for a predicate on states that ignores `out` and `init` -/
+/-! ### generic traversal for a predicate that depends on flags, stack, trace and error only -/
 
-structure StPred (P : St → Prop) : Prop where
-  out : ∀ (s : St) f, P s → P { s with out := f }
-  init : ∀ (s : St) f, P s → P { s with init := f }
+/-- `P` looks at `active`, `stack`, `trace`, `error` only -/
+def StPred (P : St → Prop) : Prop :=
+  ∀ s s' : St, P s → s'.active = s.active → s'.stack = s.stack → s'.trace = s.trace →
+    s'.error = s.error → P s'
 
 def DP (P : St → Prop) (dlv : Dlv) : Prop := ∀ s d et data, P s → P (dlv s d et data).1
 
@@ -252,7 +369,7 @@ theorem setOutput_P (hp : StPred P) (h : DP P dlv) (b : Blk) (d : Nat) (s : St) 
   · simp only []
     split
     · exact sendEdges_P h _ _ _ _ hs
-    · exact andThen_P (sendEdges_P h _ _ _ _ (hp.out s _ hs)) (sendEdges_P h _ _ _ _)
+    · exact andThen_P (sendEdges_P h _ _ _ _ (hp s _ hs rfl rfl rfl rfl)) (sendEdges_P h _ _ _ _)
 
 theorem runAct_P (hp : StPred P) (h : DP P dlv) (b : Blk) (d : Nat) (s : St) (a : Act) (hs : P s) :
     P (runAct dlv b d s a).1 := by
@@ -309,26 +426,120 @@ theorem initFromValue_P (hp : StPred P) (h : DP P dlv) (b : Blk) (d : Nat) (s : 
 theorem initBlock_P (hp : StPred P) (h : DP P dlv) (b : Blk) (d : Nat) (s : St) (hs : P s) :
     P (initBlock dlv b d s).1 := by
   unfold initBlock
-  exact andThen_P (initRegular_P hp h _ _ _ (hp.init s _ hs))
-    (fun h1 => andThen_P (initFromValue_P hp h _ _ _ h1) (fun h2 => hp.init _ _ h2))
+  exact andThen_P (initRegular_P hp h _ _ _ (hp s _ hs rfl rfl rfl rfl))
+    (fun h1 => andThen_P (initFromValue_P hp h _ _ _ h1) (fun h2 => hp _ _ h2 rfl rfl rfl rfl))
+
+/-! the FSM functions, given what the window does to `P` -/
+
+theorem winBody_P (hp : StPred P) (h : DP P dlv) (b : Blk) (d : Nat) (s : St) (wb : WinBody)
+    (hs : P s) : P (winBody dlv b d s wb).1 := by
+  unfold winBody
+  split
+  · exact runActs_P hp h _ _ _ _ hs
+  · split
+    · exact hs
+    · split
+      · exact h _ _ _ _ hs
+      · split
+        · exact hp s _ hs rfl rfl rfl rfl
+        · exact hs
+
+theorem chainExit_P (hp : StPred P) (h : DP P dlv) (b : Blk) (d : Nat) (s : St) (chained : Bool)
+    (hs : P s) : P (chainExit dlv b d s chained).1 := by
+  unfold chainExit
+  have h0 : P { s with nextEv := upd s.nextEv d Option.none } := hp s _ hs rfl rfl rfl rfl
+  simp only []
+  split
+  · split
+    · exact runActs_P hp h _ _ _ _ h0
+    · exact h0
+  · exact h0
+
+theorem fsmLeave_P (hp : StPred P) (h : DP P dlv) (b : Blk) (d : Nat) (s : St) (hs : P s) :
+    P (fsmLeave dlv b d s).1 := by
+  unfold fsmLeave
+  split
+  · exact hs
+  · split
+    · exact hs
+    · exact andThen_P (runActs_P hp h _ _ _ _ hs)
+        (fun h1 => andThen_P (sendEdges_P h _ _ _ _ h1) (fun h2 => hp _ _ h2 rfl rfl rfl rfl))
+
+theorem fsmFinish_P (hp : StPred P) (h : DP P dlv) (b : Blk) (d : Nat) (s : St) (hs : P s) :
+    P (fsmFinish dlv b d s).1 := by
+  unfold fsmFinish
+  split
+  · exact hs
+  · exact andThen_P (setOutput_P hp h _ _ _ _ hs)
+      (fun h1 => andThen_P (sendEdges_P h _ _ _ _ h1) (fun h2 => h2))
+
+theorem fsmChain_P (hp : StPred P) (h : DP P dlv) (b : Blk) (d : Nat) (stk0 : List Frame)
+    (hw : ∀ s wb, P s → P (fsmWindow dlv b d stk0 s wb).1) (k : Nat) (s : St) (chained : Bool)
+    (ns : Nat) (hs : P s) : P (fsmChain dlv b d stk0 k s chained ns).1 := by
+  induction k generalizing s chained ns with
+  | zero => exact hs
+  | succ k ih =>
+    unfold fsmChain
+    refine andThen_P (chainExit_P hp h b d s chained hs) (fun h0 => ?_)
+    refine andThen_P (hw _ _ (hp _ _ h0 rfl rfl rfl rfl)) (fun h2 => ?_)
+    split
+    · exact ih _ _ _ h2
+    · split
+      · exact h2
+      · refine andThen_P (hw _ _ h2) (fun h3 => ?_)
+        split
+        · exact ih _ _ _ h3
+        · exact h3
+
+theorem fsmTransition_P (hp : StPred P) (h : DP P dlv) (b : Blk) (d : Nat) (stk0 : List Frame)
+    (hw : ∀ s wb, P s → P (fsmWindow dlv b d stk0 s wb).1) (s : St) (ns : Nat) (hs : P s) :
+    P (fsmTransition dlv b d stk0 s ns).1 := by
+  unfold fsmTransition
+  refine andThen_P (fsmLeave_P hp h b d s hs) (fun h3 => ?_)
+  split
+  · exact h3
+  · exact andThen_P (fsmChain_P hp h b d stk0 hw _ _ _ _ h3) (fun h4 => fsmFinish_P hp h b d _ h4)
+
+theorem fsmEvent_P (hp : StPred P) (h : DP P dlv) (b : Blk) (d : Nat) (stk0 : List Frame)
+    (hw : ∀ s wb, P s → P (fsmWindow dlv b d stk0 s wb).1) (s : St) (et : EType) (hs : P s) :
+    P (fsmEvent dlv b d stk0 s et).1 := by
+  unfold fsmEvent
+  split
+  · exact hs
+  · exact hs
+  · exact hs
+  · exact andThen_P (sendEdges_P h _ _ _ _ hs) (fun h => h)
+  · split
+    · split
+      · exact hs
+      · exact hp s _ hs rfl rfl rfl rfl
+    · rename_i ns _ _
+      have ht := fsmTransition_P hp h b d stk0 hw { s with fsmActive := upd s.fsmActive d true } ns
+        (hp s _ hs rfl rfl rfl rfl)
+      exact hp _ _ ht rfl rfl rfl rfl
 
 end generic
 
 /-! ### no nested handling -/
 
-/-- consistency of guards and (ghost) stack: a block is locked iff its handler is running -/
+/-- consistency of guards and (ghost) stack: a block is locked iff its handler is running
+    (and not suspended in a window) -/
 def Inv (s : St) : Prop := ∀ x, s.active x = true ↔ (⟨x, .handler⟩ : Frame) ∈ s.stack
 
-/-- nesting depth recorded at the entry of a handler: 1 = the block was not handling an event -/
+/-- nesting depth recorded at the entry of a handler: 1 = no other handler of the block is running
+    (frames of the block that are suspended in a window are counted separately, in `win`) -/
 def TItem.ok : TItem → Prop
-  | .enter _ k _ => k = 1
+  | .enter _ k _ _ => k = 1
   | _ => True
 
 def TraceOk (s : St) : Prop := ∀ t ∈ s.trace, t.ok
 
 def Good (s : St) : Prop := Inv s ∧ TraceOk s
 
-theorem good_stPred : StPred Good := ⟨fun _ _ h => h, fun _ _ h => h⟩
+theorem good_stPred : StPred Good := by
+  intro s s' h ha hst htr _
+  refine ⟨fun x => ?_, fun t ht => h.2 t (htr ▸ ht)⟩
+  rw [ha, hst]; exact h.1 x
 
 theorem Inv.of_frm {s s' : St} (h : Inv s) (f : Frm s s') : Inv s' := by
   intro x; rw [f.active, f.stack]; exact h x
@@ -343,6 +554,95 @@ theorem handlerDepth_zero {stk : List Frame} {d : Nat} (h : (⟨d, .handler⟩ :
     cases f with
     | mk b ph => simp at hp; simp [hp.1, hp.2]
   exact this ▸ hf
+
+theorem mem_init_cons {x d : Nat} {stk : List Frame} :
+    (⟨x, .handler⟩ : Frame) ∈ (⟨d, .init⟩ : Frame) :: stk ↔ (⟨x, .handler⟩ : Frame) ∈ stk := by
+  simp
+
+theorem mem_window_cons {x d : Nat} {stk : List Frame} :
+    (⟨x, .handler⟩ : Frame) ∈ (⟨d, .window⟩ : Frame) :: stk ↔ (⟨x, .handler⟩ : Frame) ∈ stk := by
+  simp
+
+theorem classify_traceOk (s6 : St) (r : Res) (h : TraceOk s6) : TraceOk (classify s6 r) := by
+  unfold classify St.abort
+  repeat' split
+  all_goals exact h
+
+section inHandlerOf
+variable {dlv : Dlv} (d : Nat) (a0 : Nat → Bool) (stk0 : List Frame)
+
+/-- the state is inside the handler of `d`, entered from a state with flags `a0` and stack `stk0` -/
+def InH (s : St) : Prop :=
+  s.active = upd a0 d true ∧ s.stack = ⟨d, .handler⟩ :: stk0 ∧ TraceOk s
+
+theorem inH_stPred : StPred (InH d a0 stk0) := by
+  intro s s' h ha hst htr _
+  exact ⟨ha.trans h.1, hst.trans h.2.1, fun t ht => h.2.2 t (htr ▸ ht)⟩
+
+variable (hinv : ∀ x, a0 x = true ↔ (⟨x, .handler⟩ : Frame) ∈ stk0) (hd : a0 d = false)
+include hinv hd
+
+theorem InH.good {s : St} (h : InH d a0 stk0 s) : Good s := by
+  refine ⟨fun x => ?_, h.2.2⟩
+  rw [h.1, h.2.1, List.mem_cons]
+  by_cases hx : x = d
+  · subst hx; simp [upd]
+  · simp only [upd, hx, if_false]
+    rw [hinv x]
+    constructor
+    · exact fun h => Or.inr h
+    · rintro (h | h)
+      · exact absurd (by cases h; rfl) hx
+      · exact h
+
+theorem inH_DP (hf : DFrm dlv) (h : DP Good dlv) : DP (InH d a0 stk0) dlv := by
+  intro s x et data hs
+  have f := hf s x et data
+  exact ⟨f.active.trans hs.1, f.stack.trans hs.2.1, (h s x et data (hs.good d a0 stk0 hinv hd)).2⟩
+
+/-- the chained-transition window keeps the invariants: inside, the guard of `d` is released and its
+    frame is marked `.window`; afterwards the handler goes on -/
+theorem fsmWindow_inH (hf : DFrm dlv) (h : DP Good dlv) (b : Blk) (s : St) (wb : WinBody)
+    (hs : InH d a0 stk0 s) : InH d a0 stk0 (fsmWindow dlv b d stk0 s wb).1 := by
+  unfold fsmWindow
+  have hg : Good { s with active := upd s.active d false, stack := ⟨d, .window⟩ :: stk0 } := by
+    refine ⟨fun x => ?_, hs.2.2⟩
+    simp only [hs.1, upd_upd, ← hd, upd_self, mem_window_cons]
+    exact hinv x
+  have hb := winBody_P good_stPred h b d _ wb hg
+  have fb := winBody_frm hf b d { s with active := upd s.active d false, stack := ⟨d, .window⟩ :: stk0 } wb
+  refine ⟨?_, rfl, hb.2⟩
+  show upd (winBody dlv b d _ wb).1.active d (s.active d) = upd a0 d true
+  rw [fb.active, hs.1]
+  simp only [upd_upd, upd_same]
+
+theorem fsmEvent_inH (hf : DFrm dlv) (h : DP Good dlv) (b : Blk) (s : St) (et : EType)
+    (hs : InH d a0 stk0 s) : InH d a0 stk0 (fsmEvent dlv b d stk0 s et).1 :=
+  fsmEvent_P (inH_stPred d a0 stk0) (inH_DP d a0 stk0 hinv hd hf h) b d stk0
+    (fun s wb hs => fsmWindow_inH d a0 stk0 hinv hd hf h b s wb hs) s et hs
+
+/-- entering a handler from a state with flags `upd a0 d true` and stack `stk0` -/
+theorem inHandler_ok (s3 : St) (data : Data) (body : St → St × Res)
+    (htr : TraceOk s3)
+    (hb : ∀ s4, InH d a0 stk0 s4 → TraceOk (body s4).1)
+    (hact : s3.active = upd a0 d true) : TraceOk (inHandler d stk0 s3 data body).1 := by
+  unfold inHandler
+  simp only []
+  have hnot : (⟨d, .handler⟩ : Frame) ∉ stk0 := fun hm => by
+    have := (hinv d).2 hm; rw [hd] at this; cases this
+  apply classify_traceOk
+  intro t ht
+  rcases List.mem_cons.1 ht with rfl | ht
+  · trivial
+  · have h4 : InH d a0 stk0 { s3 with trace := TItem.enter d (handlerDepth stk0 d + 1) (data.get? "value") (windowDepth stk0 d) :: s3.trace, stack := ⟨d, .handler⟩ :: stk0 } := by
+      refine ⟨hact, rfl, ?_⟩
+      intro t ht
+      rcases List.mem_cons.1 ht with rfl | ht
+      · simp [TItem.ok, handlerDepth_zero hnot]
+      · exact htr t ht
+    exact hb _ h4 t ht
+
+end inHandlerOf
 
 theorem eventBody_ok {dlv : Dlv} (hf : DFrm dlv) (h : DP Good dlv) (b : Blk) (d : Nat) (a0 : Nat → Bool)
     (stk0 : List Frame) (s1 : St) (et : EType) (data : Data)
@@ -360,13 +660,8 @@ theorem eventBody_ok {dlv : Dlv} (hf : DFrm dlv) (h : DP Good dlv) (b : Blk) (d 
       split
       · have hg : Good { s1 with active := upd s1.active d false, stack := ⟨d, .init⟩ :: stk0 } := by
           refine ⟨fun x => ?_, htr⟩
-          simp only [hact, upd_upd, ← hd, upd_self, List.mem_cons]
-          rw [hinv x]
-          constructor
-          · exact fun h => Or.inr h
-          · rintro (h | h)
-            · cases h
-            · exact h
+          simp only [hact, upd_upd, ← hd, upd_self, mem_init_cons]
+          exact hinv x
         exact (initBlock_P good_stPred h b d _ hg).2
       · exact htr
     apply andThen_P (P := TraceOk) h1
@@ -375,41 +670,15 @@ theorem eventBody_ok {dlv : Dlv} (hf : DFrm dlv) (h : DP Good dlv) (b : Blk) (d 
     -- the handler
     unfold callHandler
     split
-    · exact h1
+    · exact inHandler_ok d a0 stk0 hinv hd s3 data _ h1
+        (fun s4 h4 => (fsmEvent_inH d a0 stk0 hinv hd hf h b s4 _ h4).2.2) (hfe.active.trans hact)
     · split
       · exact h1
-      · simp only []
-        have hnot : (⟨d, .handler⟩ : Frame) ∉ stk0 := fun hm => by
-          have := (hinv d).2 hm; rw [hd] at this; cases this
-        have hg : Good { s3 with
-            trace := TItem.enter d (handlerDepth stk0 d + 1) (data.get? "value") :: s3.trace,
-            stack := ⟨d, .handler⟩ :: stk0 } := by
-          refine ⟨fun x => ?_, ?_⟩
-          · simp only [hfe.active, hact, List.mem_cons]
-            by_cases hx : x = d
-            · subst hx; simp [upd]
-            · simp only [upd, hx, if_false]
-              rw [hinv x]
-              constructor
-              · exact fun h => Or.inr h
-              · rintro (h | h)
-                · exact absurd (by cases h; rfl) hx
-                · exact h
-          · intro t ht
-            rcases List.mem_cons.1 ht with rfl | ht
-            · simp [TItem.ok, handlerDepth_zero hnot]
-            · exact h1 t ht
-        have h5 := fun name => (handlerBody_P good_stPred h b d _ name data hg).2
-        have h6 : ∀ (s6 : St) r, TraceOk s6 → TraceOk (classify s6 r) := by
-          intro s6 r h
-          unfold classify St.abort
-          repeat' split
-          all_goals exact h
-        apply h6
-        intro t ht
-        rcases List.mem_cons.1 ht with rfl | ht
-        · trivial
-        · exact h5 _ t ht
+      · split
+        · exact h1
+        · exact inHandler_ok d a0 stk0 hinv hd s3 data _ h1
+            (fun s4 h4 => (handlerBody_P good_stPred h b d s4 _ data (h4.good d a0 stk0 hinv hd)).2)
+            (hfe.active.trans hact)
 
 /-- in every execution a handler is entered with nesting depth 1 -/
 theorem deliver_good (c : Circ) (fuel : Nat) : DP Good (deliver c fuel) := by
@@ -432,188 +701,21 @@ theorem deliver_good (c : Circ) (fuel : Nat) : DP Good (deliver c fuel) := by
           exact eventBody_ok (deliver_frm c fuel) ih b d s.active s.stack _ et data hg.1
             (by simpa using hact) rfl rfl hg.2
 
-/-! ### a refused recursive event stops the simulation -/
-
-/-- the exception of a refused event either has already stopped the simulation or is still below
-    a running handler (which will stop it) -/
-def QS (stk : List Frame) (p : St × Res) : Prop :=
-  p.2 = .exc .circuitError → p.1.error.isSome ∨ ∃ x, (⟨x, .handler⟩ : Frame) ∈ stk
-
-def DQ (dlv : Dlv) : Prop := ∀ s d et data, Inv s → QS s.stack (dlv s d et data)
-
-theorem QS.leaf (stk : List Frame) (s : St) (r : Res) (h : r ≠ .exc .circuitError) : QS stk (s, r) :=
-  fun h' => absurd h' h
-
-section refusal
-variable {dlv : Dlv}
-
-theorem andThen_Q {stk : List Frame} {p : St × Res} {k : St → St × Res}
-    (h1 : QS stk p) (h2 : QS stk (k p.1)) : QS stk (andThen p k) := by
-  unfold andThen
-  split
-  · next x hx => intro h; simp only [] at h; exact h1 (hx.trans h)
-  · exact h2
-
-theorem sendEdges_Q (hf : DFrm dlv) (hq : DQ dlv) (src : Nat) (stk : List Frame) (s : St)
-    (es : List Edge) (data : Data) (hi : Inv s) (hs : s.stack = stk) :
-    QS stk (sendEdges dlv src s es data) := by
-  induction es generalizing s with
-  | nil => exact QS.leaf _ _ _ (by simp)
-  | cons e es ih =>
-    unfold sendEdges
-    split
-    · exact ih s hi hs
-    · next data' _ =>
-      have f := hf s e.dest e.etype data'
-      have h1 : QS stk (dlv s e.dest e.etype data') := by rw [← hs]; exact hq _ _ _ _ hi
-      exact andThen_Q h1 (ih _ (hi.of_frm f) (f.stack.trans hs))
-
-theorem setOutput_Q (hf : DFrm dlv) (hq : DQ dlv) (b : Blk) (d : Nat) (stk : List Frame) (s : St)
-    (v : Val) (hi : Inv s) (hs : s.stack = stk) : QS stk (setOutput dlv b d s v) := by
-  unfold setOutput
-  split
-  · exact QS.leaf _ _ _ (by simp)
-  · simp only []
-    split
-    · exact sendEdges_Q hf hq _ _ _ _ _ hi hs
-    · have hi0 : Inv { s with out := upd s.out d v } := hi
-      have f := sendEdges_frm hf d { s with out := upd s.out d v } b.onOutput
-        [("trigger", .str "output"), ("previous", s.out d), ("value", v)]
-      exact andThen_Q (sendEdges_Q hf hq _ _ _ _ _ hi0 hs)
-        (sendEdges_Q hf hq _ _ _ _ _ (hi0.of_frm f) (f.stack.trans hs))
-
-theorem runAct_Q (hf : DFrm dlv) (hq : DQ dlv) (b : Blk) (d : Nat) (stk : List Frame) (s : St)
-    (a : Act) (hi : Inv s) (hs : s.stack = stk) : QS stk (runAct dlv b d s a) := by
-  cases a with
-  | setOut v => exact setOutput_Q hf hq _ _ _ _ _ hi hs
-  | send i v =>
-    simp only [runAct]
-    split
-    · exact QS.leaf _ _ _ (by simp)
-    · exact sendEdges_Q hf hq _ _ _ _ _ hi hs
-  | trySend i v =>
-    simp only [runAct]
-    split
-    · exact QS.leaf _ _ _ (by simp)
-    · intro h
-      unfold swallow at h
-      repeat' split at h
-      all_goals simp_all
-  | raise => exact QS.leaf _ _ _ (by simp)
-  | rawEvent x et => simp only [runAct]; rw [← hs]; exact hq _ _ _ _ hi
-
-theorem runActs_Q (hf : DFrm dlv) (hq : DQ dlv) (b : Blk) (d : Nat) (stk : List Frame) (s : St)
-    (as : List Act) (hi : Inv s) (hs : s.stack = stk) : QS stk (runActs dlv b d s as) := by
-  induction as generalizing s with
-  | nil => exact QS.leaf _ _ _ (by simp)
-  | cons a as ih =>
-    unfold runActs
-    have f := runAct_frm hf b d s a
-    exact andThen_Q (runAct_Q hf hq _ _ _ _ _ hi hs) (ih _ (hi.of_frm f) (f.stack.trans hs))
-
-theorem initRegular_Q (hf : DFrm dlv) (hq : DQ dlv) (b : Blk) (d : Nat) (stk : List Frame) (s : St)
-    (hi : Inv s) (hs : s.stack = stk) : QS stk (initRegular dlv b d s) := by
-  unfold initRegular
-  split
-  · exact runActs_Q hf hq _ _ _ _ _ hi hs
-  · exact setOutput_Q hf hq _ _ _ _ _ hi hs
-  · exact QS.leaf _ _ _ (by simp)
-
-theorem initFromValue_Q (hf : DFrm dlv) (hq : DQ dlv) (b : Blk) (d : Nat) (stk : List Frame) (s : St)
-    (hi : Inv s) (hs : s.stack = stk) : QS stk (initFromValue dlv b d s) := by
-  unfold initFromValue
-  split
-  · split
-    · exact QS.leaf _ _ _ (by simp)
-    · exact QS.leaf _ _ _ (by simp)
-    · rw [← hs]; exact hq _ _ _ _ hi
-    · exact setOutput_Q hf hq _ _ _ _ _ hi hs
-  · exact QS.leaf _ _ _ (by simp)
-
-theorem initBlock_Q (hf : DFrm dlv) (hq : DQ dlv) (b : Blk) (d : Nat) (stk : List Frame) (s : St)
-    (hi : Inv s) (hs : s.stack = stk) : QS stk (initBlock dlv b d s) := by
-  unfold initBlock
-  have hi0 : Inv { s with init := upd s.init d .running } := hi
-  have f := initRegular_frm hf b d { s with init := upd s.init d .running }
-  refine andThen_Q (initRegular_Q hf hq b d stk _ hi0 hs) ?_
-  exact andThen_Q (initFromValue_Q hf hq b d stk _ (hi0.of_frm f) (f.stack.trans hs))
-    (QS.leaf _ _ _ (by simp))
-
-end refusal
-
-theorem mem_init_cons {x d : Nat} {stk : List Frame} :
-    (⟨x, .handler⟩ : Frame) ∈ (⟨d, .init⟩ : Frame) :: stk ↔ (⟨x, .handler⟩ : Frame) ∈ stk := by
-  simp
-
 theorem classify_aborts (s : St) (e : Exc) (h1 : e ≠ .unknownEvent) (h2 : e ≠ .outOfFuel) :
     (classify s (.exc e)).error.isSome := by
   cases e <;> simp_all [classify, St.abort] <;> split <;> simp_all
-
-theorem deliver_Q (c : Circ) (fuel : Nat) : DQ (deliver c fuel) := by
-  induction fuel with
-  | zero => intro s d et data _; exact QS.leaf _ _ _ (by simp)
-  | succ fuel ih =>
-    intro s d et data hi
-    have hf := deliver_frm c fuel
-    unfold deliver
-    split
-    · exact QS.leaf _ _ _ (by simp)
-    · split
-      · next x hx =>
-        refine QS.leaf _ _ _ ?_
-        cases et <;> simp [EType.check] at hx <;> subst hx <;> simp
-      · split
-        · next hact => exact fun _ => Or.inr ⟨d, (hi d).1 hact⟩
-        · next b _ _ _ hact =>
-          have hd : s.active d = false := by simpa using hact
-          intro hr
-          simp only [] at hr ⊢
-          -- the body of `event()`
-          revert hr
-          unfold eventBody
-          simp only []
-          split
-          · intro hr; cases hr
-          · -- early initialisation
-            have hie : QS s.stack (earlyInit (deliver c fuel) b d s.stack
-                { s with active := upd s.active d true }) := by
-              unfold earlyInit
-              split
-              · have hi2 : Inv { s with active := upd (upd s.active d true) d false, stack := ⟨d, .init⟩ :: s.stack } := by
-                  intro x
-                  simp only [upd_upd, ← hd, upd_self, mem_init_cons]
-                  exact hi x
-                have h3 := initBlock_Q hf ih b d _ _ hi2 rfl
-                intro hr
-                rcases h3 hr with h | ⟨x, hx⟩
-                · exact Or.inl h
-                · exact Or.inr ⟨x, mem_init_cons.1 hx⟩
-              · exact QS.leaf _ _ _ (by simp)
-            unfold andThen
-            split
-            · next x hx =>
-              intro hr
-              simp only [Res.exc.injEq] at hr
-              subst hr
-              exact hie hx
-            · -- the handler: a CircuitError that leaves it has called abort()
-              unfold callHandler
-              split
-              · intro hr; simp at hr
-              · split
-                · intro hr; simp at hr
-                · intro hr
-                  simp only [] at hr ⊢
-                  left
-                  rw [hr]
-                  exact classify_aborts _ _ (by simp) (by simp)
 
 /-! ### a refusal stops the simulation, whatever the handlers on the stack do with the exception -/
 
 /-- if an event was refused by a busy block, `Circuit.error` is set -/
 def RefAbort (s : St) : Prop := (∃ x, TItem.refused x ∈ s.trace) → s.error.isSome
 
-theorem refAbort_stPred : StPred RefAbort := ⟨fun _ _ h => h, fun _ _ h => h⟩
+/-- `RefAbort` looks at `trace` and `error` only -/
+theorem refAbort_of_eq {s s' : St} (h : RefAbort s) (htr : s'.trace = s.trace) (he : s'.error = s.error) :
+    RefAbort s' := by
+  intro ⟨x, hx⟩; rw [he]; exact h ⟨x, htr ▸ hx⟩
+
+theorem refAbort_stPred : StPred RefAbort := fun _ _ h _ _ htr he => refAbort_of_eq h htr he
 
 theorem classify_trace (s : St) (r : Res) : (classify s r).trace = s.trace := by
   unfold classify
@@ -627,6 +729,25 @@ theorem RefAbort.cons {s : St} (h : RefAbort s) (t : TItem) (ht : ∀ x, t ≠ .
   rcases List.mem_cons.1 hx with hx | hx
   · exact absurd hx.symm (ht x)
   · exact h ⟨x, hx⟩
+
+theorem fsmWindow_refAbort {dlv : Dlv} (h : DP RefAbort dlv) (b : Blk) (d : Nat) (stk0 : List Frame)
+    (s : St) (wb : WinBody) (hs : RefAbort s) : RefAbort (fsmWindow dlv b d stk0 s wb).1 := by
+  unfold fsmWindow
+  simp only []
+  exact refAbort_of_eq (winBody_P refAbort_stPred h b d _ wb (refAbort_of_eq (s' := { s with active := upd s.active d false, stack := ⟨d, .window⟩ :: stk0 }) hs rfl rfl)) rfl rfl
+
+theorem inHandler_refAbort (d : Nat) (stk0 : List Frame) (s3 : St) (data : Data) (body : St → St × Res)
+    (hs : RefAbort s3) (hb : ∀ s4, RefAbort s4 → RefAbort (body s4).1) :
+    RefAbort (inHandler d stk0 s3 data body).1 := by
+  unfold inHandler
+  simp only []
+  have h4 := hs.cons (.enter d (handlerDepth stk0 d + 1) (data.get? "value") (windowDepth stk0 d))
+    (by intro x; simp)
+    { s3 with trace := TItem.enter d (handlerDepth stk0 d + 1) (data.get? "value") (windowDepth stk0 d) :: s3.trace, stack := ⟨d, .handler⟩ :: stk0 } rfl rfl
+  intro ⟨x, hx⟩
+  rw [classify_trace] at hx
+  apply (classify_frm _ _).error
+  exact (hb _ h4).cons _ (by intro x; simp) _ rfl rfl ⟨x, hx⟩
 
 theorem deliver_refAbort (c : Circ) (fuel : Nat) : DP RefAbort (deliver c fuel) := by
   induction fuel with
@@ -658,17 +779,15 @@ theorem deliver_refAbort (c : Circ) (fuel : Nat) : DP RefAbort (deliver c fuel) 
             generalize (earlyInit (deliver c fuel) b d s.stack s1).1 = s3 at he
             unfold callHandler
             split
-            · exact he
+            · exact inHandler_refAbort d s.stack s3 data _ he
+                (fun s4 h4 => fsmEvent_P refAbort_stPred ih b d s.stack
+                  (fun s' wb hs' => fsmWindow_refAbort ih b d s.stack s' wb hs') s4 _ h4)
             · split
               · exact he
-              · simp only []
-                have h4 := he.cons (.enter d (handlerDepth s.stack d + 1) (data.get? "value")) (by intro x; simp)
-                  { s3 with trace := TItem.enter d (handlerDepth s.stack d + 1) (data.get? "value") :: s3.trace, stack := ⟨d, .handler⟩ :: s.stack } rfl rfl
-                have h5 := fun name => handlerBody_P refAbort_stPred ih b d _ name data h4
-                intro ⟨x, hx⟩
-                rw [classify_trace] at hx
-                apply (classify_frm _ _).error
-                exact (h5 _).cons _ (by intro x; simp) _ rfl rfl ⟨x, hx⟩
+              · split
+                · exact he
+                · exact inHandler_refAbort d s.stack s3 data _ he
+                    (fun s4 h4 => handlerBody_P refAbort_stPred ih b d s4 _ data h4)
 
 /-! ### fuel: the nesting depth of `event()` calls is bounded by the circuit -/
 
@@ -709,7 +828,7 @@ theorem setOutput_G (hk : KClosed K) (hf : DFrm dlv) (hg : DG K dlv) (b : Blk) (
   · simp only []
     split
     · exact sendEdges_G hk hf hg _ _ _ _ h
-    · have h0 : K { s with out := upd s.out d v } := hk _ _ h ⟨rfl, rfl, id, fun _ h => h⟩
+    · have h0 : K { s with out := upd s.out d v } := hk _ _ h ⟨rfl, rfl, id, fun _ h => h, rfl⟩
       exact andThen_G (sendEdges_G hk hf hg _ _ _ _ h0)
         (sendEdges_G hk hf hg _ _ _ _ (hk _ _ h0 (sendEdges_frm hf ..)))
 
@@ -774,6 +893,7 @@ theorem handlerBody_G (hk : KClosed K) (hf : DFrm dlv) (hg : DG K dlv) (b : Blk)
     · split
       · exact andThen_G (sendEdges_G hk hf hg _ _ _ _ h) (NoOOF.leaf _ _ (by simp))
       · exact andThen_G (sendEdges_G hk hf hg _ _ _ _ h) (NoOOF.leaf _ _ (by simp))
+  · exact NoOOF.leaf _ _ (by simp)
 
 theorem initRegular_G (hk : KClosed K) (hf : DFrm dlv) (hg : DG K dlv) (b : Blk) (d : Nat) (s : St)
     (h : K s) : NoOOF (initRegular dlv b d s) := by
@@ -788,11 +908,16 @@ theorem initFromValue_G (hk : KClosed K) (hf : DFrm dlv) (hg : DG K dlv) (b : Bl
   unfold initFromValue
   split
   · split
-    · exact NoOOF.leaf _ _ (by simp)
-    · exact NoOOF.leaf _ _ (by simp)
     · exact hg _ _ _ _ h
-    · exact setOutput_G hk hf hg _ _ _ _ h
-  · exact NoOOF.leaf _ _ (by simp)
+    · exact NoOOF.leaf _ _ (by simp)
+  · split
+    · split
+      · exact NoOOF.leaf _ _ (by simp)
+      · exact NoOOF.leaf _ _ (by simp)
+      · exact NoOOF.leaf _ _ (by simp)
+      · exact hg _ _ _ _ h
+      · exact setOutput_G hk hf hg _ _ _ _ h
+    · exact NoOOF.leaf _ _ (by simp)
 
 theorem initBlock_G (hk : KClosed K) (hf : DFrm dlv) (hg : DG K dlv) (b : Blk) (d : Nat) (s : St)
     (h : K { s with init := upd s.init d .running }) : NoOOF (initBlock dlv b d s) := by
@@ -801,12 +926,132 @@ theorem initBlock_G (hk : KClosed K) (hf : DFrm dlv) (hg : DG K dlv) (b : Blk) (
   exact andThen_G (initFromValue_G hk hf hg b d _ (hk _ _ h (initRegular_frm hf ..)))
     (NoOOF.leaf _ _ (by simp))
 
+/-! the FSM functions: `K2` holds inside a transition, `K` inside its window -/
+
+theorem winBody_G (hk : KClosed K) (hf : DFrm dlv) (hg : DG K dlv) (b : Blk) (d : Nat) (s : St)
+    (wb : WinBody) (h : K s) : NoOOF (winBody dlv b d s wb) := by
+  unfold winBody
+  split
+  · exact runActs_G hk hf hg _ _ _ _ h
+  · split
+    · exact NoOOF.leaf _ _ (by simp)
+    · split
+      · exact hg _ _ _ _ h
+      · split
+        · exact NoOOF.leaf _ _ (by simp)
+        · exact NoOOF.leaf _ _ (by simp)
+
+theorem chainExit_G (hk : KClosed K) (hf : DFrm dlv) (hg : DG K dlv) (b : Blk) (d : Nat) (s : St)
+    (chained : Bool) (h : K s) : NoOOF (chainExit dlv b d s chained) := by
+  unfold chainExit
+  have h0 : K { s with nextEv := upd s.nextEv d Option.none } := hk _ _ h ⟨rfl, rfl, id, fun _ h => h, rfl⟩
+  simp only []
+  split
+  · split
+    · exact runActs_G hk hf hg _ _ _ _ h0
+    · exact NoOOF.leaf _ _ (by simp)
+  · exact NoOOF.leaf _ _ (by simp)
+
+theorem fsmLeave_G (hk : KClosed K) (hf : DFrm dlv) (hg : DG K dlv) (b : Blk) (d : Nat) (s : St)
+    (h : K s) : NoOOF (fsmLeave dlv b d s) := by
+  unfold fsmLeave
+  split
+  · exact NoOOF.leaf _ _ (by simp)
+  · split
+    · exact NoOOF.leaf _ _ (by simp)
+    · exact andThen_G (runActs_G hk hf hg _ _ _ _ h)
+        (andThen_G (sendEdges_G hk hf hg _ _ _ _ (hk _ _ h (runActs_frm hf ..))) (NoOOF.leaf _ _ (by simp)))
+
+theorem fsmFinish_G (hk : KClosed K) (hf : DFrm dlv) (hg : DG K dlv) (b : Blk) (d : Nat) (s : St)
+    (h : K s) : NoOOF (fsmFinish dlv b d s) := by
+  unfold fsmFinish
+  split
+  · exact NoOOF.leaf _ _ (by simp)
+  · exact andThen_G (setOutput_G hk hf hg _ _ _ _ h)
+      (andThen_G (sendEdges_G hk hf hg _ _ _ _ (hk _ _ h (setOutput_frm hf ..))) (NoOOF.leaf _ _ (by simp)))
+
+variable {K2 : St → Prop}
+
+theorem fsmChain_G (hk : KClosed K) (hk2 : KClosed K2) (hkk : ∀ s, K2 s → K s) (hf : DFrm dlv)
+    (hg : DG K dlv) (b : Blk) (d : Nat) (stk0 : List Frame)
+    (hw : ∀ s wb, K2 s → NoOOF (fsmWindow dlv b d stk0 s wb)) (k : Nat) (s : St) (chained : Bool)
+    (ns : Nat) (h : K2 s) (hs : s.stack = ⟨d, .handler⟩ :: stk0) :
+    NoOOF (fsmChain dlv b d stk0 k s chained ns) := by
+  induction k generalizing s chained ns with
+  | zero => exact NoOOF.leaf _ _ (by simp)
+  | succ k ih =>
+    unfold fsmChain
+    have f1 := chainExit_frm hf b d s chained
+    refine andThen_G (chainExit_G hk hf hg b d s chained (hkk _ h)) ?_
+    have h0 := hk2 _ _ h f1
+    generalize (chainExit dlv b d s chained).1 = s0 at f1 h0
+    have hs0 : s0.stack = ⟨d, .handler⟩ :: stk0 := f1.stack.trans hs
+    have h1 : K2 { s0 with fstate := upd s0.fstate d (some ns) } := hk2 _ _ h0 ⟨rfl, rfl, id, fun _ h => h, rfl⟩
+    have f2 := fsmWindow_frm hf b d stk0 { s0 with fstate := upd s0.fstate d (some ns) } (.enter ns) hs0
+    refine andThen_G (hw _ _ h1) ?_
+    have h2 := hk2 _ _ h1 f2
+    generalize (fsmWindow dlv b d stk0 { s0 with fstate := upd s0.fstate d (some ns) } (.enter ns)).1 = s2 at f2 h2
+    have hs2 : s2.stack = ⟨d, .handler⟩ :: stk0 := f2.stack.trans hs0
+    split
+    · exact ih s2 true _ h2 hs2
+    · split
+      · exact NoOOF.leaf _ _ (by simp)
+      · have f3 := fsmWindow_frm hf b d stk0 s2 (.startTimer ns) hs2
+        refine andThen_G (hw _ _ h2) ?_
+        have h3 := hk2 _ _ h2 f3
+        generalize (fsmWindow dlv b d stk0 s2 (.startTimer ns)).1 = s3 at f3 h3
+        split
+        · exact ih s3 true _ h3 (f3.stack.trans hs2)
+        · exact NoOOF.leaf _ _ (by simp)
+
+theorem fsmTransition_G (hk : KClosed K) (hk2 : KClosed K2) (hkk : ∀ s, K2 s → K s) (hf : DFrm dlv)
+    (hg : DG K dlv) (b : Blk) (d : Nat) (stk0 : List Frame)
+    (hw : ∀ s wb, K2 s → NoOOF (fsmWindow dlv b d stk0 s wb)) (s : St) (ns : Nat) (h : K2 s)
+    (hs : s.stack = ⟨d, .handler⟩ :: stk0) : NoOOF (fsmTransition dlv b d stk0 s ns) := by
+  unfold fsmTransition
+  have f1 := fsmLeave_frm hf b d s
+  refine andThen_G (fsmLeave_G hk hf hg b d s (hkk _ h)) ?_
+  have h3 := hk2 _ _ h f1
+  generalize (fsmLeave dlv b d s).1 = s3 at f1 h3
+  have hs3 : s3.stack = ⟨d, .handler⟩ :: stk0 := f1.stack.trans hs
+  split
+  · exact NoOOF.leaf _ _ (by simp)
+  · have f2 := fsmChain_frm hf b d stk0 (3 * b.nStates) s3 false ns hs3
+    refine andThen_G (fsmChain_G hk hk2 hkk hf hg b d stk0 hw _ s3 false ns h3 hs3) ?_
+    exact fsmFinish_G hk hf hg b d _ (hkk _ (hk2 _ _ h3 f2))
+
+theorem fsmEvent_G (hk : KClosed K) (hk2 : KClosed K2) (hkk : ∀ s, K2 s → K s) (hf : DFrm dlv)
+    (hg : DG K dlv) (b : Blk) (d : Nat) (stk0 : List Frame)
+    (hw : ∀ s wb, K2 s → NoOOF (fsmWindow dlv b d stk0 s wb)) (s : St) (et : EType) (h : K s)
+    (h2 : s.fsmActive d = false → K2 { s with fsmActive := upd s.fsmActive d true })
+    (hs : s.stack = ⟨d, .handler⟩ :: stk0) : NoOOF (fsmEvent dlv b d stk0 s et) := by
+  unfold fsmEvent
+  split
+  · exact NoOOF.leaf _ _ (by simp)
+  · exact NoOOF.leaf _ _ (by simp)
+  · exact NoOOF.leaf _ _ (by simp)
+  · exact andThen_G (sendEdges_G hk hf hg _ _ _ _ h) (NoOOF.leaf _ _ (by simp))
+  · split
+    · split
+      · exact NoOOF.leaf _ _ (by simp)
+      · exact NoOOF.leaf _ _ (by simp)
+    · rename_i ns _ hfa
+      exact fsmTransition_G hk hk2 hkk hf hg b d stk0 hw _ ns (h2 (by simpa using hfa)) hs
+
+theorem inHandler_G (d : Nat) (stk0 : List Frame) (s : St) (data : Data) (body : St → St × Res)
+    (hb : NoOOF (body { s with trace := TItem.enter d (handlerDepth stk0 d + 1) (data.get? "value") (windowDepth stk0 d) :: s.trace, stack := ⟨d, .handler⟩ :: stk0 })) :
+    NoOOF (inHandler d stk0 s data body) := by
+  unfold inHandler
+  exact hb
+
 end fuel
 
-/-- blocks that can still enter `event()` plus blocks whose early initialisation can still open a
-    window: every nested call of `event()` lowers this number -/
+/-- blocks that can still enter `event()`, blocks whose early initialisation can still open a
+    window, FSMs that can still start a transition (and open its window): every nested call of
+    `event()` lowers this number -/
 def phi (n : Nat) (s : St) : Nat :=
   (List.range n).countP (fun d => !s.active d) + (List.range n).countP (fun d => s.init d == .pending)
+    + (List.range n).countP (fun d => !s.fsmActive d)
 
 theorem countP_flip (l : List Nat) (hl : l.Nodup) (d : Nat) (hd : d ∈ l) (p p' : Nat → Bool)
     (hp : p d = true) (hp' : p' d = false) (hne : ∀ x, x ≠ d → p' x = p x) :
@@ -833,18 +1078,44 @@ theorem countP_flip (l : List Nat) (hl : l.Nodup) (d : Nat) (hd : d ∈ l) (p p'
 
 theorem phi_frm (n : Nat) {s s' : St} (f : Frm s s') : phi n s' ≤ phi n s := by
   unfold phi
-  rw [f.active]
+  rw [f.active, f.fsm]
+  apply Nat.add_le_add_right
   apply Nat.add_le_add_left
   apply List.countP_mono_left
   intro x _ hx
   have := f.init x (by simpa using hx)
   simp [this]
 
-theorem phi_le (n : Nat) (s : St) : phi n s ≤ 2 * n := by
+theorem phi_le (n : Nat) (s : St) : phi n s ≤ 3 * n := by
   unfold phi
   have h1 := List.countP_le_length (p := fun d => !s.active d) (l := List.range n)
   have h2 := List.countP_le_length (p := fun d => s.init d == .pending) (l := List.range n)
-  simp only [List.length_range] at h1 h2
+  have h3 := List.countP_le_length (p := fun d => !s.fsmActive d) (l := List.range n)
+  simp only [List.length_range] at h1 h2 h3
+  omega
+
+/-- releasing one guard raises the count by at most one -/
+theorem countP_release (n : Nat) (a : Nat → Bool) (d : Nat) :
+    (List.range n).countP (fun x => !upd a d false x) ≤ (List.range n).countP (fun x => !a x) + 1 := by
+  by_cases had : a d = false
+  · rw [← had, upd_self]; omega
+  · by_cases hmem : d ∈ List.range n
+    · have := countP_flip (List.range n) List.nodup_range d hmem
+        (fun x => !upd a d false x) (fun x => !a x) (by simp [upd]) (by simpa using had)
+        (fun x hx => by simp [upd, hx])
+      omega
+    · have : (List.range n).countP (fun x => !upd a d false x) = (List.range n).countP (fun x => !a x) := by
+        apply List.countP_congr
+        intro x hx
+        have : x ≠ d := fun h => hmem (h ▸ hx)
+        simp [upd, this]
+      omega
+
+theorem phi_window (n : Nat) (s : St) (d : Nat) (stk : List Frame) :
+    phi n { s with active := upd s.active d false, stack := stk } ≤ phi n s + 1 := by
+  unfold phi
+  have := countP_release n s.active d
+  simp only [] at this ⊢
   omega
 
 theorem kclosed_phi (n k : Nat) : KClosed (fun s => phi n s < k) :=
@@ -918,10 +1189,31 @@ theorem deliver_G (c : Circ) (fuel : Nat) : DG (fun s => phi c.n s < fuel) (deli
             generalize (earlyInit (deliver c fuel) b d s.stack { s with active := upd s.active d true }).1 = s3 at hK3
             unfold callHandler
             split
-            · exact NoOOF.leaf _ _ (by simp)
+            · -- an FSM: its transition lowers `phi` once more, its window raises it by one
+              apply inHandler_G
+              have hk2 : KClosed (fun s => phi c.n s + 1 < fuel) :=
+                fun _ _ h f => by have := phi_frm c.n f; omega
+              refine fsmEvent_G (K2 := fun s => phi c.n s + 1 < fuel) hk hk2 (fun _ h => by omega) hf ih b d
+                s.stack ?_ _ _ hK3 ?_ rfl
+              · intro s' wb h'
+                unfold fsmWindow
+                apply winBody_G hk hf ih
+                have := phi_window c.n s' d (⟨d, .window⟩ :: s.stack)
+                omega
+              · intro hfa
+                have hfa : s3.fsmActive d = false := hfa
+                have := countP_flip (List.range c.n) List.nodup_range d hmem
+                  (fun x => !s3.fsmActive x) (fun x => !upd s3.fsmActive d true x) (by simp [hfa])
+                  (by simp [upd]) (fun x hx => by simp [upd, hx])
+                have hK3' : phi c.n s3 < fuel := hK3
+                unfold phi at hK3' ⊢
+                simp only [] at this hK3' ⊢
+                omega
             · split
               · exact NoOOF.leaf _ _ (by simp)
-              · exact handlerBody_G hk hf ih b d _ _ data hK3
+              · split
+                · exact NoOOF.leaf _ _ (by simp)
+                · exact inHandler_G d s.stack _ data _ (handlerBody_G hk hf ih b d _ _ data hK3)
 
 /-- `Circ.fuel` is enough in every state -/
 theorem deliver_fuel (c : Circ) (s : St) (d : Nat) (et : EType) (data : Data) :
